@@ -359,7 +359,7 @@ EvalExpr(N, st, it) ==
             [AllocObj(st, NewTab) EXCEPT !.vals = Append(@, <<<<"t", tref>>>>),
                                          !.kont = Append(K, [w |-> "tabc", e |-> e, i |-> 1, n |-> 1, env |-> env])])
 (* ---- emit: tokens with first-appearance identity ------------------------------------- *)
-IsPrim(v) == v[1] \in {"nil", "b", "n", "s", "rtmsg", "anystr", "fault"}
+IsPrim(v) == v[1] \in {"nil", "b", "n", "s"} \/ IsOpaqueStr(v)
 SeenIdx(seen, v) == {j \in 1..Len(seen) : seen[j][1] = v[1] /\ seen[j] = v}
 RECURSIVE TokList(_, _, _, _)
 TokList(vs, i, toks, seen) ==
@@ -510,7 +510,8 @@ Builtin(N, st, name, a, multi, ln) ==
            (IF n = 0 THEN Fault(st, ln)
             ELSE LET lv == IF a2 = Nil THEN Num(1) ELSE a2 IN
                  IF a1[1] = "s" /\ lv[1] = "n" /\ lv[2] > 0
-                 THEN (IF ~OneLine(ln) THEN Unmod(st, "error() call spans lines")
+                 THEN (IF ln = NoPos THEN Raise(st, <<"sfx", a1[2]>>)     \* error called by host code (pcall(error, msg)): position not judged
+                       ELSE IF ~OneLine(ln) THEN Unmod(st, "error() call spans lines")
                        ELSE IF lv[2] = 1 THEN Raise(st, Str(PosPrefix(ln) \o a1[2]))
                        ELSE IF lv[2] = 2
                        THEN (LET r == CurRet(st) IN
